@@ -38,8 +38,8 @@ CHECKS["C19"] = dict(
 
 _EXSIM_TECH = ("runtime monitoring: generated backtests on the real exchange behind a recording proxy; snapshots of all "
                "balances/orders/loans before and after every API call and after every dispatched event; ")
-_EXSIM_NOTE = ("Every traded symbol has its precision configured, initial balances on the grid, strategy uses only the "
-               "public async API. " + COMMON_NOTE)
+_EXSIM_NOTE = ("Every traded symbol has its precision configured, initial balances on the grid (negative ones - an "
+               "account opened with a debt - included), strategy uses only the public async API. " + COMMON_NOTE)
 CHECKS["C01"] = dict(engine="exsim", level="exploration", design_ref="3/C01",
     technique=_EXSIM_TECH + "shadow ledger (initial + fills - fees - paid interest) compared on every snapshot",
     text="Hundreds (quick) to tens of thousands (thorough) of random and directed histories; the conservation equation "
@@ -49,8 +49,12 @@ CHECKS["C02"] = dict(engine="exsim", level="exploration", design_ref="3/C02",
     technique=_EXSIM_TECH + "sign and borrowed==open-principal checks on every snapshot plus icontract post-condition "
               "on every internal AccountBalances.update",
     text="Solvency invariants are checked at every quiescent point and, through an icontract post-condition applied "
-         "from the harness, after every internal balance update (mid-operation states included).",
-    note=_EXSIM_NOTE)
+         "from the harness, after every internal balance update (mid-operation states included); a fill paid with "
+         "funds reserved for another order is caught by a one-sided reservation oracle that also works from polled "
+         "state alone.",
+    note="Open known finding opening_debt_has_no_loan (known_findings.json): for an account opened with a negative "
+         "balance the check prints a KNOWN-FINDING line and demands borrowed == opening debt + open principal. "
+         + _EXSIM_NOTE)
 CHECKS["C04"] = dict(engine="exsim", level="exploration", design_ref="3/C04",
     technique=_EXSIM_TECH + "per-fill price/trigger oracle against the bar with the fill's timestamp; offline "
               "completeness checker; exhaustive micro-scenarios over all 604 weak orderings of O/H/L/C/limit/stop "
